@@ -669,8 +669,13 @@ fn oracles(s: &mut Sys, case: &[String], out: &mut Out) {
 					continue;
 				}
 				// first chunk whose increment is nearer to the new speed than to the old one
-				let kobs = (tw.set_chunk.max(1)..n).find(|&k| {
-					let a = s.chunks[k - 1].items.get(tw.target_res).and_then(clock_val);
+				let kobs = (tw.set_chunk..n).find(|&k| {
+					// before the first chunk every clock is at 0
+					let a = if k == 0 {
+						Some(0.0)
+					} else {
+						s.chunks[k - 1].items.get(tw.target_res).and_then(clock_val)
+					};
 					let b = s.chunks[k].items.get(tw.target_res).and_then(clock_val);
 					match (a, b) {
 						(Some(a), Some(b)) => {
